@@ -27,7 +27,7 @@ SEQ_BASE = dict(AeadC="1", Starts='"boundary"', Menu='"none"', BnKind='"leaf"', 
 
 SETUP_BASE = dict(KemSet="{32}", KdfSet="{1}", AeadSet="{1, 65535}", ModeSet="{0, 1, 2, 3}", Vals='"small"',
                   Perturb='{"none", "info", "psk", "pskid", "mode", "kdf", "aead", "skr", "enc", "pks", "shift"}',
-                  Impost="FALSE", Ordered="TRUE", MaxSeals="0", MaxOpens="0", MaxExports="0", MaxShots="0",
+                  Impost="FALSE", Shape='"all"', Emit="FALSE", Ordered="TRUE", MaxSeals="0", MaxOpens="0", MaxExports="0", MaxShots="0",
                   RecordHist="FALSE", HistLen="0", FormMenu='{"alloc"}', OvfFirstInOpen="TRUE")
 
 
@@ -210,3 +210,88 @@ def c06(chk, tier):
 
 def c06_single_shot(chk, ses, thorough):
     pass
+
+
+# ----------------------------------------------------------------------- MC_Setup based checks
+KEMS = (32, 16, 17, 18)
+
+
+def setup_transitions(chk, ses, name, over, exact_tags=frozenset(), want=None, casekey=None, workers=4, **kw):
+    """Generate the transitions of an MC_Setup instance and run each as an implementation test.
+    `want(last, tr)` selects the transitions to test; `casekey(last, tr)` gives the distinct-case key."""
+    prologues = {}
+    batch = TransitionBatch(ses, exact_tags=exact_tags, label=name, **kw)
+    counts = {}
+
+    def on(v):
+        if "prologue" in v:
+            for e in v["prologue"]:
+                pro = e["pro"]
+                prologues[e["kem"]] = [pro[k] for k in sorted(pro)]
+            return
+        last = v["last"]
+        if want and not want(last, v):
+            return
+        suite = None
+        for c in ("s", "r", "i"):
+            m = v["made"].get(c) if isinstance(v.get("made"), dict) else None
+            if m:
+                suite = m[0]["plain"]["suite"]
+                break
+        if suite is None:
+            suite = last["plain"]["suite"]
+        batch.prologue = prologues[suite[0]]
+        batch.add(v)
+        counts[last["op"]] = counts.get(last["op"], 0) + 1
+        chk.case(casekey(last, v) if casekey else (name, json.dumps(last, sort_keys=True)[:0], batch.n))
+    generate(chk, "MC_Setup", "MC_Setup.cfg", name, over, invariants=[], on_value=on, workers=workers, timeout=7200)
+    if batch.n == 0:
+        raise ToolError("no transition generated by %s" % name)
+    batch.run()
+    return counts
+
+
+def suite_of(tr):
+    made = tr.get("made")
+    if isinstance(made, dict):
+        for c in ("s", "r", "i"):
+            if made.get(c):
+                return tuple(made[c][0]["plain"]["suite"]), made[c][0]["plain"]["mode"]
+    return tuple(tr["last"]["plain"]["suite"]), tr["last"]["plain"]["mode"]
+
+
+@prop("C02")
+def c02(chk, tier):
+    thorough = tier == "thorough"
+    chk.assumptions += [
+        "RFC-exactness is relative to the primitive oracle (pure-Python HKDF, X25519, P-256/384/521, AES-GCM, "
+        "ChaCha20-Poly1305 pinned by published vectors) and to the specification's transcription of RFC 9180, "
+        "itself anchored to Appendix A.1.1, A.1.2, A.1.3, A.2.1, A.3.1 (driver/anchor.py)",
+        "receiver direction: encapsulated keys and ciphertexts handed to the real receiver are computed by the "
+        "oracle from the specification's terms, never copied from the implementation's sender"]
+    ses = Session(chk)
+    try:
+        for kem in KEMS:
+            def key(last, tr):
+                su, mo = suite_of(tr)
+                return ("c02", su, mo, last["op"], last.get("form"), last.get("c"), last["kind"],
+                        json.dumps(last.get("plain"), sort_keys=True))
+            setup_transitions(chk, ses, "gen_exact_%d" % kem,
+                              setup_over(KemSet="{%d}" % kem, KdfSet="{1, 2, 3}", AeadSet="{1, 2, 3, 65535}",
+                                         Vals='"leaf"', Shape='"all"' if thorough else '"one"', Perturb='{"none"}',
+                                         Emit=True, MaxSeals=2, MaxOpens=2, MaxExports=1,
+                                         FormMenu='{"alloc", "detached"}'),
+                              exact_tags=ALL, casekey=key)
+            setup_transitions(chk, ses, "gen_exact_shot_%d" % kem,
+                              setup_over(KemSet="{%d}" % kem, KdfSet="{1, 2, 3}" if thorough else "{%d}" % (1 + kem % 3),
+                                         AeadSet="{1, 2, 3, 65535}", Vals='"leaf"', Shape='"one"', Perturb='{"none"}',
+                                         Emit=True, MaxShots=2, FormMenu='{"alloc", "detached"}'),
+                              exact_tags=ALL, casekey=key,
+                              want=lambda last, tr: last["op"].startswith("single_shot"))
+    finally:
+        ses.close()
+    chk.cov["rule"] = ("every transition of the bounded setup model for all 48 suites x 4 modes (setup_s, setup_r, seal, "
+                       "open, export, single-shot seal/open; both API forms), each an implementation test in which "
+                       "every returned byte must equal the oracle's evaluation of the specification's term; "
+                       "distinct = distinct (suite, mode, call, form, context, outcome, arguments)")
+    chk.cov["exhaustive"] = True
